@@ -289,7 +289,7 @@ def rejected_invocations(ctx, i, tmproot):
         others = [k for k in KINDS if k != truth]
         p = make_project(rng, root, truth, {others[0]: "stale", others[1]: "agreeing"}, rich=i % 2 == 0)
         cls = ("missing_truth_file", "fewer_than_two_files", "missing_input_file", "missing_output_file", "existing_gen_output",
-               "existing_gen_output_named_with_tilde")[i % 6]
+               "existing_gen_output_named_with_tilde", "first_file_of_the_truth_kind_missing")[i % 7]
         missing = os.path.join(root, "no_such_{}.py".format(i))
         extra_env = None
         flag = {"argparse_function": "--argparse-function", "class": "--class", "function": "--function"}
@@ -299,6 +299,10 @@ def rejected_invocations(ctx, i, tmproot):
             argv = ["sync", "--truth", truth] + [x for part in parts for x in part]
             if i % 2:
                 argv = ["sync"] + [x for part in parts for x in part] + ["--truth", truth]
+        elif cls == "first_file_of_the_truth_kind_missing":
+            # the truth is the FIRST file of its kind; it does not exist, a later file of that kind does
+            argv = ["sync", "--truth", truth, flag[truth], missing, flag[truth], p.files[truth], flag[truth] + "-name", p.names[truth],
+                    flag[others[0]], p.files[others[0]], flag[others[0]] + "-name", p.names[others[0]]]
         elif cls == "fewer_than_two_files":
             argv = ["sync", "--truth", truth, flag[truth], p.files[truth], flag[truth] + "-name", p.names[truth]]
         elif cls in ("missing_input_file", "missing_output_file"):
